@@ -5,7 +5,7 @@ oracles (written against the property texts, independent of the Coq model)."""
 import os, re, glob
 import vlib, schedlib
 
-INSTR_FLAGS = ["-finstrument-functions", "-finstrument-functions-exclude-file-list=harness/,/usr/"]
+INSTR_FLAGS = ["-finstrument-functions", "-finstrument-functions-exclude-file-list=harness/,/usr/", "-DC04_INSTRUMENTED"]
 TIMER_WRAP = ["timerfd_create", "timerfd_settime"]     # harness/C04_driver.cc emulates the timerfd by an eventfd
 
 
